@@ -1,5 +1,5 @@
-import os
 """C08 - the No-U-Turn sampler leaves its target invariant."""
+import os
 import numpy as np
 import scipy.stats as sps
 from hypothesis import strategies as st
@@ -80,6 +80,17 @@ class Inconclusive(Exception):
     pass
 
 
+def orbit_separated(xs):
+    """True when distinct orbit indices have distinguishable positions (the harness identifies leaves by position)"""
+    pts = [(i, x) for i, x in sorted(xs.items()) if np.all(np.isfinite(x))]
+    for a in range(len(pts)):
+        for b in range(a + 1, len(pts)):
+            xa, xb = pts[a][1], pts[b][1]
+            if np.max(np.abs(xa - xb)) <= 1e-6 * (1 + max(np.max(np.abs(xa)), np.max(np.abs(xb)))):
+                return False
+    return True
+
+
 def uturn(xs, rs, lo, hi):
     d = xs[hi] - xs[lo]
     a, b = float(d @ rs[lo]), float(d @ rs[hi])
@@ -117,6 +128,8 @@ def run_det(c, rec):
     T = RecTarget(c)
     dist = T.build(n)
     x0, r0 = A(c["x0"]), A(c["r0"])
+    if np.linalg.norm(r0) < 1e-3:
+        r0 = r0 + 0.7     # (Hypothesis favours the zero vector; a vanishing momentum only produces ties)
     rng = ScriptedRNG(normal=list(r0), exponential=[c["e"]], fallback_seed=c["useed"])
     try:
         if c["interface"] == "experimental":
@@ -136,11 +149,21 @@ def run_det(c, rec):
     except NameError as e:  # 'NaN potential func': the sampler refuses to continue
         rec.classify({"interface": c["interface"], "result": "refused_nan"}, False)
         return
+    if rng.q["exponential"] or rng.q["normal"]:
+        # the implementation does not draw its momentum / slice variable through np.random.randn / np.random.exponential (any
+        # equivalent way of drawing them is legitimate): nothing can be scripted, the statistical sub-checks decide
+        rec.classify({"interface": c["interface"], "result": "inconclusive"}, False)
+        rec.inconc("momentum_or_slice_variable_not_scriptable")
+        return
     leaves = [p.copy() for p in T.calls]
     K = 2 ** (D + 1)
     xs, rs, Hs = orbit(T, x0, r0, eps, K)
     H0 = Hs[0]
     log_u = H0 - c["e"]
+    if not orbit_separated(xs):
+        rec.classify({"interface": c["interface"], "result": "inconclusive"}, False)
+        rec.inconc("orbit_points_coincide")   # e.g. zero momentum at the mode: leaves cannot be told apart by position
+        return
     # map every evaluated leaf to an orbit index
     idxs = []
     for p in leaves:
@@ -281,6 +304,9 @@ def run_selection(c, rec):
     xs, rs, Hs = orbit(T, x0, r0, eps, K)
     log_u = Hs[0] - c["e"]
     f0, g0 = T.f(x0), T.g(x0)
+    if not orbit_separated(xs):
+        rec.inconc("orbit_points_coincide")
+        return
 
     def index_of(p):
         best, bi = None, None
@@ -322,6 +348,8 @@ def run_selection(c, rec):
                     leaves = list(T.calls)[1:]
             except NameError:
                 continue
+            if rng.q["exponential"] or rng.q["normal"]:
+                continue   # momentum / slice variable drawn some other (legitimate) way: not scriptable
             key = tuple(index_of(p) for p in leaves)
             if None in key:
                 continue
@@ -372,20 +400,25 @@ def inv_cases(draw, tier="quick"):
     return {"kind": kind, "dim": n, "G": draw(gen.mat(n, n, -0.7, 0.7)), "mu": draw(gen.vec(n, -1, 1)),
             "eps_frac": draw(st.sampled_from([0.05, 0.3, 0.7, 1.1, 1.4])), "depth": draw(st.integers(0, 4)), "k": draw(st.integers(1, 3)),
             "interface": draw(st.sampled_from(["experimental", "legacy"])), "history": draw(st.sampled_from(["fresh", "fresh", "warmup"])),
-            "seed": draw(st.integers(0, 10 ** 6)), "R": 4000 if tier == "quick" else 40000, "ban_a": draw(st.sampled_from([0.5, 1.0]))}
+            "seed": draw(st.integers(0, 10 ** 6)), "R": 4000 if tier == "quick" else 40000, "ban_a": draw(st.sampled_from([0.5, 1.0])),
+            # un-normalised targets: a constant added to the log-density (posteriors with many observations have log-densities
+            # of -10^3 ... -10^4) must not change the kernel
+            "shift": draw(st.sampled_from([0.0, 0.0, -900.0, -5000.0, 400.0]))}
 
 
 def run_inv(c, rec):
     import cuqi
     n = c["dim"]
-    if rec.classify({"kind": c["kind"], "interface": c["interface"], "history": c["history"], "depth": c["depth"], "eps": c["eps_frac"]}, True):
+    shift = float(c.get("shift", 0.0))
+    if rec.classify({"kind": c["kind"], "interface": c["interface"], "history": c["history"], "depth": c["depth"], "eps": c["eps_frac"],
+                     "shift": shift}, True):
         return
     if c["kind"] == "gauss":
         S = gen.spd_from(c["G"], 0.5)
         mu = A(c["mu"])
         Sinv = np.linalg.inv(S)
         Lc = np.linalg.cholesky(S)
-        f = lambda x: float(-0.5 * (np.asarray(x) - mu) @ Sinv @ (np.asarray(x) - mu))
+        f = lambda x: float(-0.5 * (np.asarray(x) - mu) @ Sinv @ (np.asarray(x) - mu)) + shift
         g = lambda x: -(Sinv @ (np.asarray(x) - mu))
         lam_max = float(np.max(np.linalg.eigvalsh(Sinv)))
         eps = c["eps_frac"] * 2.0 / np.sqrt(lam_max)      # leapfrog stability limit 2/sqrt(lambda_max)
@@ -393,7 +426,7 @@ def run_inv(c, rec):
         whiten = lambda x: np.linalg.solve(Lc, x - mu)
     else:
         a = c["ban_a"]
-        f = lambda x: float(-0.5 * x[0] ** 2 - 0.5 * (x[1] - a * x[0] ** 2) ** 2)
+        f = lambda x: float(-0.5 * x[0] ** 2 - 0.5 * (x[1] - a * x[0] ** 2) ** 2) + shift
         g = lambda x: np.array([-x[0] + 2 * a * x[0] * (x[1] - a * x[0] ** 2), -(x[1] - a * x[0] ** 2)])
         eps = c["eps_frac"] * 0.7
         def draw0(rs):
@@ -408,6 +441,17 @@ def run_inv(c, rec):
         s0.warmup(60)
         state0 = s0.get_state()
         np.random.seed()
+    elif c["history"] == "warmup":
+        # legacy interface: the step size produced by its own warm-up, then held fixed
+        np.random.seed(c["seed"] % (2 ** 31))
+        s0 = cuqi.sampler.NUTS(target, x0=draw0(np.random.RandomState(1)), max_depth=c["depth"], adapt_step_size=True)
+        s0.sample(2, 60)
+        np.random.seed()
+        state0 = None
+        epsw = float(s0.epsilon_list[-1])
+        if np.isfinite(epsw) and 0 < epsw < 0.999:
+            eps = epsw
+        rec.count("legacy_warmup_step_size_used")
     else:
         state0 = None
 
